@@ -3,14 +3,19 @@
    Model: model/M_Params.v (Parameter objects in a store, ParameterSet with all of its caches,
    ParameterModelMapper), spec: spec/S_Params.v (the parameter table and the brute-force views). *)
 From Coq Require Import ZArith List Bool Lia.
-From Sky Require Import Result PyList M_Params S_Params P_Params P_ParamsViews P_ParamsWorld P_ParamsMap P_ParamsRec P_ParamsArgs P_ParamsRefine P_ParamsE2E.
+From Sky Require Import Result PyList M_Params S_Params P_Params P_ParamsViews P_ParamsWorld P_ParamsMap P_ParamsRec P_ParamsArgs P_ParamsRefine P_ParamsE2E P_ParamsX.
 Import ListNotations.
 Open Scope Z_scope.
 
 (* T0 (end to end): REFINEMENT.  The world of Parameter objects, store locations and caches behaves,
    for every operation sequence, exactly like the value-level specification interpreter `s_step` of
    S_Params.v (parameter sets = plain lists of parameters, no identity, no caches; a rejected operation
-   is a no-op): same abstract world after every step, same exception (or none) at every step. *)
+   is a no-op): same abstract world after every step, same exception (or none) at every step.
+   The interpreter is written independently of the model: what one Parameter does (s_param_new,
+   s_make_fixed, s_make_floating, s_set_value) and the alias column of map_param (s_dup_scan, s_column:
+   model by model, with nth_error) are closed forms of their own; C04_spec_parameter_ops and
+   C04_spec_map_rows state separately that the model's code computes them.  Only the request lookup
+   `assoc`, Python list indexing `py_get`/`py_set` and the record type are shared with the model. *)
 Theorem C04_refinement : forall src ops,
   abs (run (init src) ops) = s_run (s_init src) ops
   /\ map (fun we => (abs (fst we), snd we)) (trace (init src) ops) = s_trace (s_init src) ops.
@@ -27,6 +32,32 @@ Print Assumptions C04_refinement_step.
 Theorem C04_abs_set : forall st s ps, Consistent st s ps -> abs_set st s = ps.
 Proof. exact abs_set_Consistent. Qed.
 Print Assumptions C04_abs_set.
+
+(* the independent Parameter-level definitions of the specification are what the model of the code computes *)
+Theorem C04_spec_parameter_ops :
+  (forall d, s_param_new d = param_new d)
+  /\ (forall p i, s_make_fixed p i = make_fixed p i)
+  /\ (forall p i lo hi, s_make_floating p i lo hi = make_floating p i lo hi)
+  /\ (forall p v, s_set_value p v = set_value p v)
+  /\ (forall e, s_entry e = parse_fentry e).
+Proof. exact (conj s_param_new_eq (conj s_make_fixed_eq (conj s_make_floating_eq (conj s_set_value_eq s_entry_eq)))). Qed.
+Print Assumptions C04_spec_parameter_ops.
+
+(* ... and the model-by-model reading of map_param's column is what the numpy plumbing (boolean mask,
+   np.where with broadcasting, hstack) of the model computes *)
+Theorem C04_spec_map_rows : forall m l p models al,
+  map_param m l p models al =
+  do rows <- s_map_rows (length (mp_src m)) (mp_names m) (p_name p) models al;
+  do g <- add_param (mp_gps m) l p false; Ok (mkMapper (mp_src m) g rows).
+Proof. intros. rewrite s_map_rows_eq. apply map_param_factor. Qed.
+Print Assumptions C04_spec_map_rows.
+
+(* no dangling location in a reachable world: the abstraction `abs_set` drops nothing *)
+Theorem C04_no_dangling : forall src ops s,
+  let w := run (init src) ops in
+  In s (all_sets w) -> length (abs_set (w_store w) s) = length (ps_params s).
+Proof. exact reachable_no_dangling. Qed.
+Print Assumptions C04_no_dangling.
 
 (* T1: after ANY operation sequence (any length, any number of parameters, sets and models; failed
    operations included) every parameter set of the world — the mapper's global set and every set made
@@ -369,6 +400,57 @@ Theorem C04_copy : forall st s ps,
     /\ Consistent (st ++ ps) s' ps.
 Proof. exact copy_set_ok. Qed.
 Print Assumptions C04_copy.
+
+(* ================= the rest of the public API (xop): T1 does NOT extend to it =================
+   OPEN finding C04-shared-parameter: an existing Parameter object handed to a second owner
+   (add_param(p), ParameterSet(params=...), map_param(p)), then fixed through the first owner: the second
+   owner's mask and name lists disagree with its own Parameter object *)
+Theorem C04_shared_refuted :
+  exists src ops s ps,
+    let w := xrun (init src) ops in
+    In s (all_sets w) /\ mapM (rd (w_store w)) (ps_params s) = Ok ps
+    /\ ps_mask s <> map p_isfixed ps /\ ps_fln s <> s_floating_names (table_of ps).
+Proof. exact shared_refuted. Qed.
+Print Assumptions C04_shared_refuted.
+
+(* partial: histories without these operations are the `op` histories of T0-T4 ... *)
+Theorem C04_xrun_base : forall ops w, xrun w (map XBase ops) = run w ops.
+Proof. exact xrun_base. Qed.
+Print Assumptions C04_xrun_base.
+
+(* ... and handing out an existing object leaves every set consistent in itself (the damage is done by the
+   next edit through one of the owners) *)
+Theorem C04_shared_partial : forall w n front r k,
+  Forall (fun s => exists ps, Consistent (w_store w) s ps) (all_sets w) ->
+  Forall (fun s => exists ps, Consistent (w_store (fst (xstep w (XAddShared n front r k)))) s ps)
+         (all_sets (fst (xstep w (XAddShared n front r k)))).
+Proof. exact add_shared_keeps_sets_consistent. Qed.
+Print Assumptions C04_shared_partial.
+
+(* OPEN finding C04-change-fixed-value: change_fixed_value leaves the fixed-value cache (and every value
+   dictionary built from it) with the old value ... *)
+Theorem C04_change_fixed_refuted :
+  exists src ops ps,
+    let w := xrun (init src) ops in
+    let g := mp_gps (w_map w) in
+    mapM (rd (w_store w)) (ps_params g) = Ok ps
+    /\ ps_fxv g <> s_fixed_values (table_of ps)
+    /\ dict_get (get_params_dict g []) 0 = Some 5 /\ map p_value ps = [9].
+Proof. exact change_fixed_refuted. Qed.
+Print Assumptions C04_change_fixed_refuted.
+
+(* ... until update_fixed_param_value_cache is called on the set: then it is consistent again *)
+Theorem C04_update_cache_restores : forall st s ps j l p v,
+  Consistent st s ps -> NoDup (ps_params s) ->
+  nth_error (ps_params s) j = Some l -> nth_error ps j = Some p -> p_isfixed p = true ->
+  let p' := mkParam (p_name p) v true (p_valmin p) (p_valmax p) v in
+  change_fixed_value p v = Ok p'
+  /\ exists fps f,
+       fixed_params (wr st l p') s = Ok fps
+       /\ upd_cache (ps_fxv s) 0 fps = (f, None)
+       /\ Consistent (wr st l p') (with_fxv s f) (set_nth ps j p').
+Proof. exact update_cache_restores. Qed.
+Print Assumptions C04_update_cache_restores.
 
 (* ---- non-vacuity: a concrete history (non-source model first; fixed parameter declared ahead of
    floating ones; alias; fix, float, union, copy, rejected requests) reaches a world whose global set
